@@ -5,8 +5,11 @@
 //!
 //! Number mapping (floats never reach the spec): u32 lenses "iter"/"eval" take the integer as
 //! is; "fval" (f64 state) = k * 0.5; "obj" (best objective value) = k * 0.25, as do epsilon and
-//! the known optimum.  Progress (f64) is logged as the unique fraction num/den (den <= MAXDEN)
-//! whose correctly rounded quotient is bit-identical to it; NaN = 0/0, +inf = 1/0.
+//! the known optimum.  The signed lenses "sval" (f64 state) = (c - SOFF) * 0.5 and "ival" (i32
+//! state) = c - SOFF, bounds of less-than-n on them likewise; `f = "nz"` on a call makes its zero
+//! the float -0.0.  Progress (f64) is logged as the unique fraction num/den (den <= MAXDEN, sign in
+//! the numerator) whose correctly rounded quotient is bit-identical to it; NaN = 0/0, +inf = 1/0,
+//! -inf = -1/0, either zero = 0/1.
 use mahf::{
     components::{Block, Loop, Scope},
     conditions::{
@@ -22,7 +25,8 @@ use serde_json::{json, Value};
 
 use crate::{
     problems_cond::{
-        CondProblem, CountBody, CountTests, EvalLog, FVal, LoopLog, NestLog, NestTests, Probe, Scripted, SetIter, St,
+        CondProblem, CountBody, CountTests, EvalLog, FVal, IVal, LoopLog, NestLog, NestTests, Probe, Raise, SVal, Scripted,
+        SetIter, St,
     },
     util::{caught, read_ndjson, rng, Args, Out},
 };
@@ -31,6 +35,8 @@ const NOVAL: i64 = -1;
 const GONE: i64 = -2;
 const MAXDEN: i64 = 40_000;
 const LENSES: [&str; 4] = ["iter", "eval", "fval", "obj"];
+/// code of the number 0 on the signed lenses
+const SOFF: i64 = 100_000;
 
 type Cond = Box<dyn Condition<CondProblem>>;
 
@@ -44,8 +50,17 @@ pub fn frac(x: f64) -> (i64, i64) {
     if x == f64::INFINITY {
         return (1, 0);
     }
-    if x < 0.0 || x.is_infinite() {
-        return (-7, -7);
+    if x == f64::NEG_INFINITY {
+        return (-1, 0);
+    }
+    if x == 0.0 {
+        return (0, 1);
+    }
+    if x < 0.0 {
+        return match frac(-x) {
+            (-7, -7) => (-7, -7),
+            (a, b) => (-a, b),
+        };
     }
     let (mut h0, mut k0, mut h1, mut k1) = (0i64, 1i64, 1i64, 0i64);
     let mut y = x;
@@ -100,23 +115,40 @@ fn project(st: &St) -> (Value, Value) {
     } else {
         st.best_objective_value().map(|o| exact_int(o.value(), 4.0)).unwrap_or(NOVAL)
     };
-    let obs = json!({"iter": it, "eval": ev, "fval": fv, "obj": ob});
+    let halves = |v: f64| if (v * 2.0).fract() == 0.0 && v.abs() < 1e9 { SOFF + (v * 2.0) as i64 } else { -7 };
+    let sv = st.try_get_value::<SVal>().map(halves).unwrap_or(NOVAL);
+    let iv = st.try_get_value::<IVal>().map(|v| SOFF + v as i64).unwrap_or(NOVAL);
+    let obs = json!({"iter": it, "eval": ev, "fval": fv, "obj": ob, "sval": sv, "ival": iv});
     let progress = json!({
         "iter": fr(st.try_get_value::<Progress<ValueOf<Iterations>>>().ok()),
         "eval": fr(st.try_get_value::<Progress<ValueOf<Evaluations>>>().ok()),
         "fval": fr(st.try_get_value::<Progress<ValueOf<FVal>>>().ok()),
         "obj": {"num": 0, "den": 1},
+        "sval": fr(st.try_get_value::<Progress<ValueOf<SVal>>>().ok()),
+        "ival": fr(st.try_get_value::<Progress<ValueOf<IVal>>>().ok()),
     });
     (obs, progress)
 }
 
 // ------------------------------------------------------------------ building the real conditions
 
-fn lt_cond(l: &str, n: i64) -> Cond {
+/// The float a code of lens "sval" stands for; `nz`: its zero is -0.0.
+fn sval_of(c: i64, nz: bool) -> f64 {
+    let x = (c - SOFF) as f64 * 0.5;
+    if nz && x == 0.0 {
+        -0.0
+    } else {
+        x
+    }
+}
+
+fn lt_cond(l: &str, n: i64, nz: bool) -> Cond {
     match l {
         "iter" => LessThanN::iterations(n as u32),
         "eval" => LessThanN::evaluations(n as u32),
         "fval" => LessThanN::new(n as f64 * 0.5, ValueOf::<FVal>::new()),
+        "sval" => LessThanN::new(sval_of(n, nz), ValueOf::<SVal>::new()),
+        "ival" => LessThanN::new((n - SOFF) as i32, ValueOf::<IVal>::new()),
         other => panic!("less-than-n: unknown lens {other}"),
     }
 }
@@ -140,6 +172,9 @@ fn co_cond(l: &str, d: i64) -> Cond {
         ("eval", NOVAL) => ChangeOf::new(PartialEqChecker::new::<u32>(), ValueOf::<Evaluations>::new()),
         ("eval", d) => ChangeOf::new(DeltaEqChecker::new(d as u32), ValueOf::<Evaluations>::new()),
         ("fval", NOVAL) => ChangeOf::new(PartialEqChecker::new::<f64>(), ValueOf::<FVal>::new()),
+        ("sval", NOVAL) => ChangeOf::new(PartialEqChecker::new::<f64>(), ValueOf::<SVal>::new()),
+        ("ival", NOVAL) => ChangeOf::new(PartialEqChecker::new::<i32>(), ValueOf::<IVal>::new()),
+        ("ival", d) => ChangeOf::new(DeltaEqChecker::new(d as i32), ValueOf::<IVal>::new()),
         ("obj", NOVAL) => ChangeOf::new(
             PartialEqChecker::new::<SingleObjective>(),
             BestObjectiveValueLens::<CondProblem>::new(),
@@ -236,8 +271,12 @@ fn set_best(st: &mut St, value: Option<f64>) {
     st.insert(best);
 }
 
-fn set_obs(st: &mut St, l: &str, v: i64) {
+fn set_obs(st: &mut St, l: &str, v: i64, nz: bool) {
     match (l, v) {
+        ("sval", NOVAL) => drop(st.remove::<SVal>()),
+        ("sval", v) => drop(st.insert(SVal(sval_of(v, nz)))),
+        ("ival", NOVAL) => drop(st.remove::<IVal>()),
+        ("ival", v) => drop(st.insert(IVal((v - SOFF) as i32))),
         ("iter", NOVAL) => drop(st.remove::<Iterations>()),
         ("iter", v) => drop(st.insert(Iterations(v as u32))),
         ("eval", NOVAL) => drop(st.remove::<Evaluations>()),
@@ -274,14 +313,41 @@ pub fn exec(st: &mut St, a: &Value) -> Value {
     let (x, y, z) = (a["x"].as_i64().unwrap(), a["y"].as_i64().unwrap(), a["z"].as_i64().unwrap());
     match op {
         "set" => {
-            set_obs(st, l, x);
+            set_obs(st, l, x, f == "nz");
             rk("ok")
         }
-        "lt_init" => match lt_cond(l, 1).init(&p0, st) {
+        "lt_init" => match lt_cond(l, SOFF + 1, false).init(&p0, st) {
             Ok(()) => rk("ok"),
             Err(_) => rk("err"),
         },
-        "lt" => reply(lt_cond(l, n).evaluate(&p0, st)),
+        "lt" => reply(lt_cond(l, n, f == "nz").evaluate(&p0, st)),
+        "sloop" => {
+            // Loop(while less-than-n(signed lens), body raising the value by d units per pass), run as a
+            // configuration run does; the caps turn a loop that does not end into data
+            let v0 = match l {
+                "sval" => st.try_get_value::<SVal>().map(|v| SOFF + (v * 2.0) as i64).unwrap_or(n),
+                _ => st.try_get_value::<IVal>().map(|v| SOFF + v as i64).unwrap_or(n),
+            };
+            let cap = ((n - v0).max(0) / d.max(1)) + 16;
+            st.insert(LoopLog::default());
+            let body: Box<dyn Component<CondProblem>> = Box::new(Raise { float: l == "sval", step: d, off: SOFF, cap });
+            let lp = Loop::new(Box::new(CountTests { inner: lt_cond(l, n, f == "nz"), cap }), body);
+            let out = (|| {
+                lp.init(&p0, st)?;
+                lp.require(&p0, &st.requirements())?;
+                lp.execute(&p0, st)
+            })();
+            let (tests, seen) = {
+                let log = st.borrow::<LoopLog>();
+                (log.tests, log.seen.clone())
+            };
+            let passes = seen.len() as i64;
+            match out {
+                Ok(()) => r("ok", NOVAL, seen, passes, tests),
+                Err(e) if e.to_string().contains("runaway") => r("runaway", NOVAL, vec![], passes, tests),
+                Err(_) => r("err", NOVAL, seen, passes, tests),
+            }
+        }
         "every" => reply(every_cond(l, n).evaluate(&p0, st)),
         "co_init" => match co_cond(l, NOVAL).init(&p0, st) {
             Ok(()) => rk("ok"),
@@ -454,10 +520,10 @@ fn fresh(seed: u64) -> St {
     st.insert(Random::new(seed));
     st.insert(EvalLog::default());
     st.insert(LoopLog::default());
-    for l in ["iter", "eval", "fval"] {
-        lt_cond(l, 1).init(&p0, &mut st).unwrap();
+    for l in ["iter", "eval", "fval", "sval", "ival"] {
+        lt_cond(l, SOFF + 1, false).init(&p0, &mut st).unwrap();
     }
-    for l in LENSES {
+    for l in LENSES.into_iter().chain(["sval", "ival"]) {
         co_cond(l, NOVAL).init(&p0, &mut st).unwrap();
     }
     st
@@ -524,7 +590,64 @@ fn random_step(run: &mut Run, g: &mut impl Rng, big: bool) {
             g.gen_range(0..=nmax)
         }
     }
-    match g.gen_range(0..107) {
+    match g.gen_range(0..121) {
+        107..=120 => {
+            // signed lenses: negative, zero (either sign) and fractional values and bounds
+            let l = ["sval", "ival"][g.gen_range(0..2)];
+            let span: i64 = if big { 20_000 } else { 6 };
+            let n = SOFF + if g.gen_bool(0.2) { 0 } else { g.gen_range(-span..=span) };
+            let nz = |g: &mut dyn rand::RngCore, c: i64| if l == "sval" && c == SOFF && g.gen_bool(0.5) { "nz" } else { "-" };
+            match g.gen_range(0..12) {
+                0..=5 => {
+                    // a value next to n, next to -n, next to zero, or anywhere; then less-than-n on it
+                    let v = match g.gen_range(0..4) {
+                        0 => n + g.gen_range(-2..=2),
+                        1 => 2 * SOFF - n + g.gen_range(-2..=2),
+                        2 => SOFF + g.gen_range(-2..=2),
+                        _ => SOFF + g.gen_range(-span..=span),
+                    };
+                    let fv = nz(g, v);
+                    run.call(act("set", l, NOVAL, NOVAL, fv, v, NOVAL, NOVAL));
+                    let fnn = nz(g, n);
+                    run.call(act("lt", l, n, NOVAL, fnn, NOVAL, NOVAL, NOVAL));
+                }
+                6 => {
+                    let fnn = nz(g, n);
+                    run.call(act("lt", l, n, NOVAL, fnn, NOVAL, NOVAL, NOVAL));
+                }
+                7 => {
+                    run.call(act("set", l, NOVAL, NOVAL, "-", NOVAL, NOVAL, NOVAL));
+                }
+                8 => {
+                    let op = ["lt_init", "co_init"][g.gen_range(0..2)];
+                    run.call(act(op, l, NOVAL, NOVAL, "-", NOVAL, NOVAL, NOVAL));
+                }
+                9 => {
+                    // change-of across zero: a value a few steps from the one seen, then the condition
+                    let cur = run.seen(l);
+                    if g.gen_bool(0.6) && cur >= 0 {
+                        let v = (cur + g.gen_range(-4..=4)).max(SOFF - span);
+                        let fv = nz(g, v);
+                        run.call(act("set", l, NOVAL, NOVAL, fv, v, NOVAL, NOVAL));
+                    }
+                    let d = if l == "sval" || g.gen_bool(0.4) { NOVAL } else { g.gen_range(0..=4) };
+                    run.call(act("co", l, NOVAL, d, "-", NOVAL, NOVAL, NOVAL));
+                }
+                _ => {
+                    // a loop raising the value by d per pass towards n, from below, from n itself, from above
+                    let d = g.gen_range(1..=3);
+                    let v0 = n - d * g.gen_range(-1..=if big { 40 } else { 8 }) + g.gen_range(-1..=1);
+                    // (from wherever the value stands only if that is at most 64 passes away)
+                    let cur = run.seen(l);
+                    if g.gen_bool(0.9) || cur < 0 || (n - cur) / d > 64 {
+                        let fv = nz(g, v0);
+                        run.call(act("set", l, NOVAL, NOVAL, fv, v0, NOVAL, NOVAL));
+                    }
+                    let fnn = nz(g, n);
+                    run.call(act("sloop", l, n, d, fnn, NOVAL, NOVAL, NOVAL));
+                }
+            }
+        }
         100..=106 => {
             // nested loops and scopes; two thirds of the programs well-scoped (every loop on its own counter)
             let mut budget = 400;
@@ -649,6 +772,37 @@ fn grid_run(run: &mut Run, ns: &[i64]) {
     }
 }
 
+/// Systematic signed grid for less-than-n on the signed lenses: every (bound, value) pair over
+/// negative / zero / positive, integral / fractional numbers (in units of the lens: halves for
+/// "sval"), both zeros as bound and as value; then loops raising the value by d towards every bound
+/// from below, from the bound itself and from above.
+fn signed_grid(run: &mut Run) {
+    let ks: [i64; 13] = [-20, -7, -6, -5, -2, -1, 0, 1, 2, 5, 6, 7, 20];
+    for l in ["sval", "ival"] {
+        let mut pts: Vec<(i64, &str)> = ks.iter().map(|k| (SOFF + k, "-")).collect();
+        if l == "sval" {
+            pts.push((SOFF, "nz"));
+        }
+        for &(n, fnn) in &pts {
+            for &(v, fv) in &pts {
+                run.call(act("set", l, NOVAL, NOVAL, fv, v, NOVAL, NOVAL));
+                run.call(act("lt", l, n, NOVAL, fnn, NOVAL, NOVAL, NOVAL));
+            }
+        }
+        for &(n, fnn) in &pts {
+            for d in 1..=3 {
+                for v0 in [n - 14, n - 7 * d, n - 3, n - 1, n, n + 2] {
+                    run.call(act("set", l, NOVAL, NOVAL, "-", v0, NOVAL, NOVAL));
+                    run.call(act("sloop", l, n, d, fnn, NOVAL, NOVAL, NOVAL));
+                }
+            }
+        }
+        // nothing to read: the loop fails at its first test
+        run.call(act("set", l, NOVAL, NOVAL, "-", NOVAL, NOVAL, NOVAL));
+        run.call(act("sloop", l, SOFF - 3, 1, "-", NOVAL, NOVAL, NOVAL));
+    }
+}
+
 /// Systematic nested loops: an outer loop over n whose body holds a scoped inner loop over m
 /// (probes before, inside and after), three loops deep, two scoped loops side by side, and the
 /// shape of the iterated-local-search template (loop { scope { loop { scope { loop } } } }).
@@ -689,6 +843,14 @@ fn selftest() -> usize {
     }
     assert_eq!(frac(0.0 / 0.0), (0, 0));
     assert_eq!(frac(3.0 / 0.0), (1, 0));
+    assert_eq!(frac(-3.0 / 0.0), (-1, 0));
+    assert_eq!(frac(3.0 / -0.0), (-1, 0));
+    assert_eq!(frac(-0.0 / 3.0), (0, 1));
+    assert_eq!(frac(-10.0 / -3.0), (10, 3));
+    assert_eq!(frac(-3.5 / 3.0), (-7, 6));
+    assert_eq!(frac(2.5 / -10.0), (-1, 4));
+    assert_eq!(sval_of(SOFF - 7, false), -3.5);
+    assert!(sval_of(SOFF, true).is_sign_negative() && !sval_of(SOFF, false).is_sign_negative());
     assert_eq!(step(step(1.5, 3), -3), 1.5);
     assert!(step(1.5, 1) > 1.5 && step(-1.5, 1) > -1.5 && step(0.0, -1) < 0.0);
     assert_eq!(bad, 0, "fraction projection is not exact");
@@ -732,6 +894,8 @@ pub fn main(args: &Args) -> usize {
             let mut run = Run::start(&mut out, runs + freq, seed);
             grid_run(&mut run, &[0, 1, 2, 3, 4, 5, 7, 10, 16, 100, 257, 1000, 4097, 9999, 10_000]);
             nest_grid(&mut run, &[0, 1, 2, 3, 5]);
+            let mut run = Run::start(&mut out, runs + freq + 1, seed);
+            signed_grid(&mut run);
         }
         other => panic!("unknown mode {other}"),
     }
